@@ -53,7 +53,11 @@ Inductive effect :=
 | SetSome              (* field = Some(value) *)
 | Push.                (* field.insert(value) / push(value) *)
 
-Record crow := { c_long : str; c_arity : carity; c_field : N; c_effect : effect }.
+(* [c_also]: further fields the builder method sets to a constant boolean when the flag
+   occurs (derive_eq(true) also sets derive_partialeq, derive_ord(true) also sets
+   derive_partialord); empty for most rows, only acted upon for bare flags. *)
+Record crow := { c_long : str; c_arity : carity; c_field : N; c_effect : effect;
+                 c_also : list (N * bool) }.
 
 Fixpoint find_crow (cs : list crow) (flag : str) : option crow :=
   match cs with
@@ -111,9 +115,14 @@ Definition upd (o : options) (f : N) (v : value) : options :=
 
 (* apply_args!: for each clap argument in table order, apply its occurrences in
    command-line order *)
+Definition set_also (o : options) (fb : N * bool) : options :=
+  upd o (fst fb) (VBool (snd fb)).
+
 Definition apply_occ (o : options) (x : occ) : options :=
   match x with
-  | OFlag c => match c_effect c with SetBool b => upd o (c_field c) (VBool b) | _ => o end
+  | OFlag c =>
+      fold_left set_also (c_also c)
+                (match c_effect c with SetBool b => upd o (c_field c) (VBool b) | _ => o end)
   | OVal c v =>
       match c_effect c with
       | SetSome => upd o (c_field c) (VOpt (Some v))
@@ -169,10 +178,13 @@ Fixpoint nodup_N (l : list N) : bool :=
 
 (* every printed flag is a clap argument of the right arity whose builder method sets
    the same field the same way; flags and fields are not shared between rows; a flag
-   is not confusable with a value *)
+   is not confusable with a value; a flag's secondary effects are on other fields *)
+Definition also_distinct (c : crow) : bool :=
+  forallb (fun fb => negb (fst fb =? c_field c)) (c_also c).
+
 Definition row_ok (cs : list crow) (r : prow) : bool :=
   match find_crow cs (p_flag r) with
-  | Some c => row_matches r c
+  | Some c => row_matches r c && also_distinct c
   | None => false
   end && starts_with_dash (p_flag r).
 
@@ -199,9 +211,6 @@ Definition value_ok (k : pkind) (v : value) : bool :=
   | _, _ => false
   end.
 
-Definition representable (rows : list prow) (o : options) : bool :=
-  forallb (fun r => value_ok (p_kind r) (o (p_field r))) rows.
-
 Definition value_eqb (a b : value) : bool :=
   match a, b with
   | VBool x, VBool y => Bool.eqb x y
@@ -216,6 +225,21 @@ Definition value_eqb (a b : value) : bool :=
          end) x y
   | _, _ => false
   end.
+
+(* a configuration is only reachable through the builder if it respects the secondary
+   effects: whenever a row prints under [o], every (f, b) its flag also sets holds in [o] *)
+Definition also_ok (cs : list crow) (r : prow) (o : options) : bool :=
+  match print_row r o with
+  | [] => true
+  | _ :: _ =>
+    match find_crow cs (p_flag r) with
+    | Some c => forallb (fun fb => value_eqb (o (fst fb)) (VBool (snd fb))) (c_also c)
+    | None => true
+    end
+  end.
+
+Definition representable (rows : list prow) (cs : list crow) (o : options) : bool :=
+  forallb (fun r => value_ok (p_kind r) (o (p_field r)) && also_ok cs r o) rows.
 
 Definition agree_on (rows : list prow) (o o' : options) : Prop :=
   forall r, In r rows -> o' (p_field r) = o (p_field r).
